@@ -33,6 +33,7 @@ type Env struct {
 	logMu   sync.Mutex
 	srvLog  bytes.Buffer
 	grpc    *grpcCarrier
+	grpcCC  *grpc.ClientConn
 	conns   map[string]grpc.ClientConnInterface
 	descs   []*grpc.ServiceDesc
 	cloner  *recCloner
@@ -104,7 +105,16 @@ func (s *Sim) buildDescs() []*grpc.ServiceDesc {
 	}
 	for _, r := range s.prog.RPCs {
 		if r.Svc != "" && r.Meth != "" {
-			add(r.Svc, r.Meth, r.Kind)
+			k := r.Kind
+			if r.KindMismatch {
+				// registered with the other call shape than the client uses
+				if k == KUnary {
+					k = KServerStream
+				} else {
+					k = KUnary
+				}
+			}
+			add(r.Svc, r.Meth, k)
 		}
 	}
 	for _, x := range s.prog.Cfg.Extra {
@@ -127,23 +137,34 @@ func (s *Sim) setupEnv() {
 	s.env = e
 	cfg := &s.prog.Cfg
 	e.descs = s.buildDescs()
+	// every carrier gets its own transport-level interceptor (all called "T"
+	// in the event log, but distinct functions tagged with the carrier), while
+	// the decorated service descriptions are built once and shared by all
+	// carriers, the way a decorated HandlerMap is re-used for several servers
 	var uInt grpc.UnaryServerInterceptor
 	var sInt grpc.StreamServerInterceptor
-	if cfg.TUnaryInt {
-		uInt = s.serverUnaryInt("T")
+	carrierInts := func(carrier string) {
+		uInt, sInt = nil, nil
+		if cfg.TUnaryInt {
+			uInt = s.serverUnaryInt("T@" + carrier)
+		}
+		if cfg.TStreamInt {
+			sInt = s.serverStreamInt("T@" + carrier)
+		}
 	}
-	if cfg.TStreamInt {
-		sInt = s.serverStreamInt("T")
+	decorated := map[*grpc.ServiceDesc]*grpc.ServiceDesc{}
+	for _, d := range e.descs {
+		decorated[d] = s.decorateDesc(d)
 	}
-
 	register := func(reg grpc.ServiceRegistrar) {
 		reg = s.decorateRegistrar(reg)
 		for _, d := range e.descs {
-			reg.RegisterService(s.decorateDesc(d), s)
+			reg.RegisterService(decorated[d], s)
 		}
 	}
 
 	if s.prog.uses(TInproc) {
+		carrierInts(TInproc)
 		ch := &inprocgrpc.Channel{}
 		if uInt != nil {
 			ch.WithServerUnaryInterceptor(uInt)
@@ -159,6 +180,7 @@ func (s *Sim) setupEnv() {
 		e.conns[TInproc] = s.wrapClient(ch)
 	}
 	if s.prog.uses(THTTP) {
+		carrierInts(THTTP)
 		base := cfg.BasePath
 		if base == "" {
 			base = "/"
@@ -212,10 +234,7 @@ func (s *Sim) setupEnv() {
 			return s.dial(e.ln, "http")
 		}
 		e.tr.DisableCompression = true
-		u, err := url.Parse(scheme + "://sim.test" + base)
-		if err != nil {
-			panic(err)
-		}
+		u := &url.URL{Scheme: scheme, Host: "sim.test", Path: base}
 		var rt http.RoundTripper = e.tr
 		switch cfg.ProxyMode {
 		case 1:
